@@ -232,6 +232,17 @@ fn c15_scenario(rng: &mut Rng, i: usize) -> Synth {
 	if matches!(s.err, ErrBehaviour::ElevateNth(k) | ErrBehaviour::CriticalNth(k) if k >= 1) && rng.chance(1, 2) {
 		s.retain_hooks = true;
 	}
+	// "under fire": the elevation happens while the action worker is busy reporting a long run of filter errors through a
+	// roomy error queue, on a runtime with several threads: what main() returns is decided in a window a few instructions
+	// wide (between the error hook dropping its receiver and its task being reported as finished), in which the worker's
+	// next send must fail
+	if matches!(s.err, ErrBehaviour::ElevateNth(_) | ErrBehaviour::CriticalNth(_)) && rng.chance(2, 3) {
+		s.err_chan = 64;
+		s.threads = s.threads.max(4);
+		for _ in 0..2 {
+			s.producers.push((0..(100 + rng.usize(100))).map(|_| ev(Priority::Normal, Verdict::Error, 0)).collect());
+		}
+	}
 	// make sure there are enough erroring events, in bursts larger than the error queue
 	let burst: Vec<EvSpec> = (0..(3 + rng.usize(12))).map(|_| ev(Priority::Normal, Verdict::Error, 0)).collect();
 	s.producers.push(burst);
